@@ -65,9 +65,51 @@ def has_plain(sp):
 _H_build = H.build
 
 
+EXTRA_SORT = {"sext": "bv16", "shl": "bv", "lshr": "bv", "rol": "bv", "reverse": "bv", "neg": "bv", "sdiv": "bv", "wide": "bv100",
+              "sge": "bool", "fplt": "bool", "fpisnan": "bool", "fptobv": "bv64", "fpconv": "fp", "strlen": "bv64",
+              "strsub": "str", "fpneg": "fp", "fpv_special": "fp"}
+
+
 def build(sp, claripy):
-    if sp[0] == "plain_ann":
+    op = sp[0]
+    if op == "plain_ann":
         return build(sp[2], claripy).annotate(classes(claripy)(sp[1]))
+    if op in EXTRA_SORT:
+        B = lambda x: build(x, claripy)  # noqa: E731
+        if op == "sext":
+            return claripy.SignExt(8, B(sp[1]))
+        if op == "shl":
+            return B(sp[1]) << B(sp[2])
+        if op == "lshr":
+            return claripy.LShR(B(sp[1]), B(sp[2]))
+        if op == "rol":
+            return claripy.RotateLeft(B(sp[1]), B(sp[2]))
+        if op == "reverse":
+            return claripy.Reverse(claripy.Concat(B(sp[1]), B(sp[2])))[7:0]
+        if op == "neg":
+            return -B(sp[1])
+        if op == "sdiv":
+            return claripy.SDiv(B(sp[1]), B(sp[2]))
+        if op == "wide":
+            return claripy.BVV(sp[1], 100) + claripy.ZeroExt(92, B(sp[2]))
+        if op == "sge":
+            return claripy.SGE(B(sp[1]), B(sp[2]))
+        if op == "fplt":
+            return claripy.fpLT(B(sp[1]), B(sp[2]))
+        if op == "fpisnan":
+            return claripy.fpIsNaN(B(sp[1]))
+        if op == "fptobv":
+            return claripy.fpToIEEEBV(B(sp[1]))
+        if op == "fpconv":
+            return claripy.fpToFP(claripy.fp.RM.RM_TowardsZero, B(sp[1]), claripy.FSORT_DOUBLE)
+        if op == "fpneg":
+            return claripy.fpNeg(B(sp[1]))
+        if op == "fpv_special":
+            return claripy.FPV(float(sp[1]), claripy.FSORT_DOUBLE)
+        if op == "strlen":
+            return claripy.StrLen(B(sp[1]))
+        if op == "strsub":
+            return claripy.StrSubstr(claripy.BVV(sp[1], 64), claripy.BVV(sp[2], 64), B(sp[3]))
     # children are rebuilt through this function (H.build looks its own name up at call time): plain_ann may sit anywhere
     saved = H.build
     try:
@@ -78,6 +120,8 @@ def build(sp, claripy):
 
 
 def sort_of(sp):
+    if sp[0] in EXTRA_SORT:
+        return EXTRA_SORT[sp[0]]
     return sort_of(sp[2]) if sp[0] == "plain_ann" else H.sort_of(sp)
 
 
@@ -137,7 +181,48 @@ def value_of(claripy, a, sp, pin):
 
 
 # ------------------------------------------------------------------ generation
+def gen_extra(r: Rng):
+    """shapes with other argument kinds in the pickled state: rounding modes, sorts, wide integers, special floats"""
+    bv = lambda: H.gen_bv8(r, r.range(0, 1))  # noqa: E731
+    fpd = lambda: r.choice([["fp", "f", "d"], ["fpv", r.choice([0.0, -0.0, 1.5]), "d"],  # noqa: E731
+                            ["fpv_special", r.choice(["nan", "inf", "-inf", "5e-324", "1.7976931348623157e308"])],
+                            ["fpadd", ["fp", "f", "d"], ["fpv", 1.5, "d"]]])
+    k = r.below(17)
+    if k == 0:
+        return ["sext", bv()]
+    if k in (1, 2, 3):
+        return [("shl", "lshr", "rol")[k - 1], bv(), bv()]
+    if k == 4:
+        return ["reverse", bv(), bv()]
+    if k == 5:
+        return ["neg", bv()]
+    if k == 6:
+        return ["sdiv", bv(), bv()]
+    if k == 7:
+        return ["wide", r.choice([(1 << 70) + 3, (1 << 100) - 1, (1 << 61) - 1, 1 << 64]), bv()]
+    if k == 8:
+        return ["sge", bv(), bv()]
+    if k == 9:
+        return ["fplt", fpd(), fpd()]
+    if k == 10:
+        return ["fpisnan", fpd()]
+    if k == 11:
+        return ["fptobv", fpd()]
+    if k == 12:
+        return ["fpconv", r.choice([["fp", "f", "f"], ["fpv", 1.5, "f"]])]
+    if k == 13:
+        return ["fpneg", fpd()]
+    if k == 14:
+        return ["fpv_special", r.choice(["nan", "inf", "-inf", "5e-324"])]
+    if k == 15:
+        return ["strlen", r.choice([["str", "s"], ["strcat", ["str", "s"], ["strv", "a"]]])]
+    return ["strsub", r.choice([0, 1]), r.choice([1, 2]), ["strcat", ["str", "s"], ["strv", "ab"]]]
+
+
 def gen_spec(r: Rng):
+    if r.chance(25):
+        sp = gen_extra(r)
+        return H.maybe_ann(r, sp) if r.chance(50) else sp
     sp = H.gen_spec(r)
     if r.chance(12):
         sp = ["plain_ann", r.choice([1, 2]), sp]
